@@ -2330,7 +2330,14 @@ class Executor(object):
         pre.ghost = {}
         lab = self.path_label(st)
         for i, r in enumerate(beh.requires):
-            z, facts = self.spec.evaluate_bool(self, r, st, pre, env)
+            try:
+                z, facts = self.spec.evaluate_bool(self, r, st, pre, env)
+            except Unsupported:
+                # a precondition that cannot even be evaluated in this state (a field of a model object that is not there):
+                # harmless when the path is dead anyway - dropped only if the solver PROVES its condition unsatisfiable
+                if not self.solver_feasible(st, 1000):
+                    return
+                raise
             self.oblige(st, "pre:%s.%d@L%d[%s]" % (name, i, ln, lab), z, props=self.all_props(caller_beh), kind="pre",
                         extra_hyps=facts, note="callee precondition: " + r)
             st.pc.extend(facts)
